@@ -537,69 +537,116 @@ theorem splitRest_span (m : SMap) (s e : Nat) : ∀ (ps : List Str) (out : List 
         · exact splitRest_span m s e ps rest hr y hy
       · cases h
 
-theorem splitSemicolon_post (it : Item) (r : Rd) (hs : SpanOK r.linecount it) :
-    Le r (splitSemicolon it r).2 ∧
-    ∀ x, (splitSemicolon it r).1 = .ok x → SpanOK (splitSemicolon it r).2.linecount x := by
-  unfold splitSemicolon
+theorem splitFirst_span (m : SMap) (f : Str) (l : Option Nat) (n : Option Str) (s e : Nat)
+    (h : List Item) (hh : splitFirst m f l n s e = some h) : ∀ y ∈ h, y.first = s ∧ y.last = e := by
+  unfold splitFirst at hh
+  split at hh
+  · split at hh
+    · rename_i x hm
+      simp only [Option.some.injEq] at hh; subst hh
+      intro y hy
+      simp only [List.mem_singleton] at hy; subst hy
+      exact mkLine_span hm
+    · cases hh
+  · simp only [Option.some.injEq] at hh; subst hh
+    intro y hy; cases hy
+
+theorem splitSemicolon_post (it : Item) (r : Rd) (hs : SpanOK r.linecount it) (q : Res Item × Rd)
+    (hq : splitSemicolon it r = some q) :
+    Le r q.2 ∧ ∀ x, q.1 = .ok x → SpanOK q.2.linecount x := by
+  unfold splitSemicolon at hq
   cases hv : it.lineView with
-  | none => exact ⟨Le.refl r, fun x hx => by cases hx; exact hs⟩
+  | none =>
+    rw [hv] at hq
+    simp only [Option.some.injEq] at hq; subst hq
+    exact ⟨Le.refl r, fun x hx => by cases hx; exact hs⟩
   | some v =>
     obtain ⟨text, l, n, s, e⟩ := v
     obtain ⟨hf, hl⟩ := lineView_span hv
-    simp only []
-    split
-    · exact ⟨Le.refl r, fun x hx => by cases hx; exact hs⟩
-    · split
-      · exact ⟨Le.refl r, fun x hx => by cases hx⟩
-      · split
-        · rename_i f others hm hr
-          have hspan : ∀ y : Item, y.first = s ∧ y.last = e → SpanOK r.linecount y := fun y hy => by
-            obtain ⟨a, b⟩ := hy
-            exact ⟨by rw [a, ← hf]; exact hs.1, by rw [a, b, ← hf, ← hl]; exact hs.2.1,
-              by rw [b, ← hl]; exact hs.2.2⟩
-          refine ⟨⟨Nat.le_refl _, id, fun hfo y hy => ?_⟩, fun x hx => ?_⟩
-          · rcases List.mem_append.mp hy with h1 | h1
-            · exact hspan y (splitRest_span _ s e _ others hr y h1)
-            · exact hfo y h1
-          · cases hx
-            exact hspan _ (mkLine_span hm)
-        · exact ⟨Le.refl r, fun x hx => by cases hx⟩
+    rw [hv] at hq
+    simp only [] at hq
+    split at hq
+    · simp only [Option.some.injEq] at hq; subst hq
+      exact ⟨Le.refl r, fun x hx => by cases hx; exact hs⟩
+    · split at hq
+      · simp only [Option.some.injEq] at hq; subst hq
+        exact ⟨Le.refl r, fun x hx => by cases hx⟩
+      · split at hq
+        · rename_i h others hm hr
+          split at hq
+          · cases hq
+          · rename_i x xs hxs
+            simp only [Option.some.injEq] at hq; subst hq
+            have hall : ∀ y ∈ x :: xs, y.first = s ∧ y.last = e := by
+              intro y hy
+              rw [← hxs] at hy
+              rcases List.mem_append.mp hy with h1 | h1
+              · exact splitFirst_span _ _ _ _ _ _ h hm y h1
+              · exact splitRest_span _ s e _ others hr y h1
+            have hspan : ∀ y : Item, y.first = s ∧ y.last = e → SpanOK r.linecount y := fun y hy => by
+              obtain ⟨a, b⟩ := hy
+              exact ⟨by rw [a, ← hf]; exact hs.1, by rw [a, b, ← hf, ← hl]; exact hs.2.1,
+                by rw [b, ← hl]; exact hs.2.2⟩
+            refine ⟨⟨Nat.le_refl _, id, fun hfo y hy => ?_⟩, fun x' hx => ?_⟩
+            · rcases List.mem_append.mp hy with h1 | h1
+              · exact hspan y (hall y (List.mem_cons_of_mem _ h1))
+              · exact hfo y h1
+            · cases hx
+              exact hspan _ (hall _ List.mem_cons_self)
+        · simp only [Option.some.injEq] at hq; subst hq
+          exact ⟨Le.refl r, fun x hx => by cases hx⟩
 
-theorem splitSemicolon_state (it : Item) (r : Rd) :
-    ∃ f, (splitSemicolon it r).2 = { r with fifo := f } := by
-  unfold splitSemicolon
-  cases it.lineView with
-  | none => exact ⟨r.fifo, rfl⟩
+theorem splitSemicolon_state (it : Item) (r : Rd) (q : Res Item × Rd)
+    (hq : splitSemicolon it r = some q) : ∃ f, q.2 = { r with fifo := f } := by
+  unfold splitSemicolon at hq
+  cases hv : it.lineView with
+  | none =>
+    rw [hv] at hq
+    simp only [Option.some.injEq] at hq; subst hq
+    exact ⟨r.fifo, rfl⟩
   | some v =>
     obtain ⟨text, l, n, s, e⟩ := v
-    simp only []
-    split
-    · exact ⟨r.fifo, rfl⟩
-    · split
-      · exact ⟨r.fifo, rfl⟩
-      · split
-        · exact ⟨_, rfl⟩
-        · exact ⟨r.fifo, rfl⟩
+    rw [hv] at hq
+    simp only [] at hq
+    split at hq
+    · simp only [Option.some.injEq] at hq; subst hq; exact ⟨r.fifo, rfl⟩
+    · split at hq
+      · simp only [Option.some.injEq] at hq; subst hq; exact ⟨r.fifo, rfl⟩
+      · split at hq
+        · split at hq
+          · cases hq
+          · simp only [Option.some.injEq] at hq; subst hq; exact ⟨_, rfl⟩
+        · simp only [Option.some.injEq] at hq; subst hq; exact ⟨r.fifo, rfl⟩
 
-theorem next1_post (r : Rd) : Post r (next1 r) := by
-  unfold next1
-  have hp := nextRaw_post (nextRawFuel r) r
-  generalize nextRaw (nextRawFuel r) r = p at hp ⊢
-  simp only []
-  cases h1 : p.1 with
-  | ok it =>
+theorem next1Loop_post : ∀ (fuel : Nat) (r : Rd), Post r (next1Loop fuel r)
+  | 0, r => ⟨Le.refl r, fun _ x hx => by cases hx⟩
+  | fuel + 1, r => by
+    unfold next1Loop
+    have hp := nextRaw_post (nextRawFuel r) r
+    generalize nextRaw (nextRawFuel r) r = p at hp ⊢
     simp only []
-    obtain ⟨f, hst⟩ := splitSemicolon_state it p.2
-    refine ⟨⟨?_, ?_, ?_⟩, fun hfo x hx => ?_⟩
-    · rw [hst]; exact hp.le.lc
-    · intro h; rw [hst]; exact hp.le.inv h
-    · intro hfo
-      exact (splitSemicolon_post it p.2 (hp.item hfo it h1)).1.fifo (hp.le.fifo hfo)
-    · exact (splitSemicolon_post it p.2 (hp.item hfo it h1)).2 x hx
-  | stop => exact hp
-  | err => exact hp
-  | exit => exact hp
-  | unsup => exact hp
+    cases h1 : p.1 with
+    | ok it =>
+      simp only []
+      cases hq : splitSemicolon it p.2 with
+      | none =>
+        simp only []
+        exact Post.chain hp.le (next1Loop_post fuel p.2)
+      | some q =>
+        simp only []
+        obtain ⟨f, hst⟩ := splitSemicolon_state it p.2 q hq
+        refine ⟨⟨?_, ?_, ?_⟩, fun hfo x hx => ?_⟩
+        · rw [hst]; exact hp.le.lc
+        · intro h; rw [hst]; exact hp.le.inv h
+        · intro hfo
+          exact (splitSemicolon_post it p.2 (hp.item hfo it h1) q hq).1.fifo (hp.le.fifo hfo)
+        · exact (splitSemicolon_post it p.2 (hp.item hfo it h1) q hq).2 x hx
+    | stop => exact hp
+    | err => exact hp
+    | exit => exact hp
+    | unsup => exact hp
+
+theorem next1_post (r : Rd) : Post r (next1 r) := next1Loop_post _ r
 
 /-! ### the chain of include readers -/
 
